@@ -19,6 +19,7 @@ UNITS = {
     "validate_conds": {"template": "contracts/validate_conds.vrs", "rlimit": 60},
     "drivers": {"template": "contracts/drivers.vrs", "rlimit": 60},
     "merkle_tree": {"template": "contracts/merkle_tree.vrs", "rlimit": 60},
+    "curry": {"template": "contracts/curry.vrs", "rlimit": 60},
     "mempool_visitor": {"template": "contracts/mempool_visitor.vrs", "rlimit": 60},
     "generator_len": {"template": "contracts/generator_len.vrs", "rlimit": 30},
     "aggsig": {"template": "contracts/aggsig.vrs", "rlimit": 60},
@@ -108,7 +109,7 @@ PROPS["C01"] = {
     "technique": "Verus contracts on the real condition parser (parse_opcode, sanitizers, list helpers, SpendId::parse, parse_args extracted verbatim) proved equal to a table-driven rule spec over all allocator trees, opcodes and flag words",
     "level_text": "Deductive proof (Verus/Z3), unbounded in tree shape, list length and flags: each condition is accepted or rejected and decoded exactly as the rule table (DESIGN Appendix A) prescribes (tier 1, iff), and whenever parse_conditions / process_single_spend accept a spend, its summary (costs, relative/absolute locks, birth assertions, reserved fee, added amounts, created-coin set, coin identity) equals the fold of the per-condition effect spec over the condition list (tier 2).",
     "level_note": "Assumed: clvmr Allocator accessor contracts (abstract immutable tree), bitflags semantics with constants read from flags.rs each run, 2-byte cost table entries (decided by native-eval under C04). Error codes are not part of the contract, accept/reject and the decoded value are.",
-    "components": [V("conditions_effects"), V("mempool_visitor"), V("validate_conds")],
+    "components": [V("conditions_effects"), V("mempool_visitor"), V("validate_conds"), V("drivers")],
     "assumptions": [
         "clvmr::Allocator accessor contracts over an abstract immutable tree (shims/clvmr.rs)",
         "bitflags contains() == bit test on the constants read from flags.rs",
@@ -125,7 +126,7 @@ PROPS["C06"] = {
     "technique": "Verus spec-level lemmas over the proved-equal rule spec - per condition (parse_args_spec) and per condition list (run_list, by induction) acceptance under stricter flags implies identical acceptance under laxer flags - on top of the contracts that tie parse_args / parse_conditions / validate_conditions to those specs; native evaluation of ground relations between runs (strict vs lenient, permutations) of the real parser",
     "level_text": "Deductive proof: for every tree, opcode and pair of flag words that differ only in strictness flags, strict acceptance of a condition implies lenient acceptance with the identical parsed condition (lemma_strict_only_restricts), and the same for a whole condition list with the identical summary (lemma_run_list_strict_only_restricts, induction over the list); parse_args and parse_conditions are proved equal to those specs (units conditions_parse, conditions_effects), and the deferred checks are proved to be a function of order-insensitive sets, sums and extrema (unit validate_conds, iff). Order independence itself is not a machine-checked lemma: it is decided on 378 ground relations (reversed / rotated / interleaved condition orders, swapped spends, each strictness subset x fork flags) over fixed bundles with boundary multiplicities (127/128/129 identical messages, 1023/1024/1025 announcements, 5999/6000/6001 spends).",
     "level_note": "Inherits C01's assumptions. The spec's aggregates are maxima, minima, sums and set insertions, which is why order cannot matter; that commutation argument over the spec (36 x 36 condition kinds) exceeded the solver's resource limit and is not claimed.",
-    "components": [V("conditions_parse"), V("conditions_effects"), V("validate_conds"), N("native_relations_ground", "relations_ground")],
+    "components": [V("conditions_parse"), V("conditions_effects"), V("validate_conds"), N("native_relations_ground", "relations_ground"), V("drivers")],
     "assumptions": ["inherits C01 (conditions_parse / conditions_effects units)"],
     "not_covered": [
         "permutation invariance as a machine-checked lemma over the summary spec (only ground relations)",
@@ -186,12 +187,11 @@ PROPS["C17"] = {
     "level": "proof",
     "technique": "Verus contracts on the real tree_hash_atom/tree_hash_pair and the iterative tree_hash stack machine (extracted verbatim) against the recursive definition th(); exhaustive native evaluation of the 24 precomputed small-atom hashes",
     "level_text": "Deductive proof for every allocator tree (any depth/width/sharing, since th is a function of the abstract tree): tree_hash returns sha256(1‖atom) / sha256(2‖th l‖th r) recursively, never underflows its stacks and terminates (measure 2*size). The small-atom shortcut is sound because the 24 table constants are recomputed exhaustively.",
-    "level_note": "Assumed: Sha256 ghost model over an uninterpreted sha256; clvmr Allocator::node contract. tree_hash_cached / TreeCache history invariant, tree_hash_from_bytes and curry_tree_hash are not yet under contract (not_covered).",
-    "components": [V("tree_hash"), N("native_tree_hash_precomputed", "tree_hash_precomputed")],
+    "level_note": "Assumed: Sha256 ghost model over an uninterpreted sha256; clvmr Allocator::node contract. tree_hash_cached with the TreeCache invariant (every memoised hash is the tree hash of its node, for any call history) is proved in unit tree_hash; curry_tree_hash and fast_forward's curry_and_treehash / curry_single_arg are proved in unit curry against the tree hash of the curried program (a (q . program) (c (q . arg) ... 1)); tree_hash_from_bytes is the composition of an assumed decoder and tree_hash_cached.",
+    "components": [V("tree_hash"), N("native_tree_hash_precomputed", "tree_hash_precomputed"), V("curry")],
     "assumptions": ["Sha256 ghost model, sha256 uninterpreted", "clvmr Allocator::node / atom contracts (shims/clvmr.rs)"],
     "not_covered": [
-        "tree_hash_cached and the TreeCache invariant across calls (history quantifier)",
-        "tree_hash_from_bytes (rests on node_from_bytes_backrefs), curry_tree_hash (iter().rev() is outside Verus's subset), curry_and_treehash",
+        "tree_hash_from_bytes (rests on node_from_bytes_backrefs: Allocator::new + decode + tree_hash_cached, three assumed/proved callees with nothing in between)",
     ],
 }
 
@@ -284,12 +284,12 @@ PROPS["C19"] = {
     "technique": "Verus contracts on the real fast_forward_singleton (guards + three-field frame over assumed clvm-traits codecs), compute_puzzle_fingerprint and hash_atom_list (framed-atom stream spec, hint rule tied to the condition parser's by a lemma), MempoolVisitor::{new_spend, condition, post_spend} and EmptyVisitor, all extracted verbatim",
     "level_text": "Deductive proof for every allocator tree, coin triple and flag word: (1) fast_forward_singleton returns Ok only for a genuine singleton spend of the stated coin - odd amounts, one puzzle hash shared by coin, new parent and new coin and equal to the tree hash of the revealed puzzle, singleton mod hash in both the curried struct and the revealed module, solution amount == coin amount, lineage proof hashing to the coin's parent id, inner puzzle hash matching, new coin a child of new parent - and the solution it returns decodes to the original with exactly lineage parent, parent amount and coin amount replaced; (2) the dedup fingerprint is sha256 of the length-framed atoms of every known condition with a fixed arity per opcode, a CREATE_COIN hint framed exactly when the parser's hint rule reports one (lemma against the C01 rule table), anything else refused (iff); (3) a signature or message condition always clears dedup eligibility and nothing else touches it during parsing; fast-forward eligibility is cleared exactly by the listed commitments; post_spend keeps dedup only when created value >= consumed and fast-forward only when the spend re-creates (own puzzle hash, own amount); visitors change nothing but the flags.",
     "level_note": "Assumed: the derived clvm-traits codecs of CurriedProgram<SingletonArgs>/SingletonSolution (FromClvm total function of the tree, ToClvm then FromClvm = identity), curry_and_treehash as an uninterpreted function, tree_hash's contract (proved in unit tree_hash), HashSet iterator adaptors any/map/sum (shims). Re-running the rewritten solution is CLVM execution (out of reach).",
-    "components": [V("mempool_visitor"), V("fast_forward"), V("fingerprint")],
+    "components": [V("mempool_visitor"), V("fast_forward"), V("fingerprint"), V("curry")],
     "assumptions": ["fewer than 2^31 conditions per spend (allocator limit) as precondition of condition()", "clvm-traits derived codecs (uninterpreted, round-trip assumed)",
                     "SHA-256 ghost model; u32::to_be_bytes uninterpreted"],
     "not_covered": [
         "fingerprint injectivity as a lemma over the framed stream (prefix-freeness of the framing + SHA-256 collision-freeness): the stream spec is proved, the injectivity argument over it is not machine-checked",
-        "curry_and_treehash against curry_tree_hash; MempoolVisitor::post_process (cross-spend)",
+        "MempoolVisitor::post_process (cross-spend)",
         "the rewritten solution runs successfully and creates the same coins (CLVM execution)",
     ],
 }
@@ -298,13 +298,11 @@ PROPS["C09"] = {
     "level": "proof",
     "technique": "Verus contracts on the real parse_coin_spend and get_puzzle_and_solution_for_coin (extracted verbatim) against a first-match spec over the generator output; native evaluation of fixed generators comparing additions_and_removals with the validated conditions for every memo/hint shape",
     "level_text": "Deductive proof for every generator output tree and coin: the lookup returns exactly the first spend whose parent id, amount and tree hash of the puzzle reveal match the coin (and fails otherwise), with parse_coin_spend accepting exactly well-formed (parent puzzle amount solution) entries. The additions/hints clause runs CLVM and is decided only on fixed generators (8 memo shapes) by evaluating the real code.",
-    "level_note": "additions_and_removals, get_coinspends_for_trusted_block and SpendBundle::additions execute CLVM programs (run_program) and use generic clvm_traits decoders: no contract within reach; only ground instances are evaluated. tree_hash_cached's contract is proved in unit tree_hash and assumed here.",
+    "level_note": "additions_and_removals, get_coinspends_for_trusted_block and SpendBundle::additions execute CLVM programs (run_program) and use generic clvm_traits decoders: no contract within reach; only ground instances are evaluated (17 generators: no memo, hints of 0/1/3/31/32/33 bytes, pair and atom memos, extra arguments and improper terminators after the memo list); for each, additions_and_removals, get_coinspends_for_trusted_block (recovered spends re-validated through run_spendbundle) and SpendBundle::additions are compared with run_block_generator2. tree_hash_cached's contract is proved in unit tree_hash and assumed here.",
     "components": [V("trusted_lookup"), N("native_trusted_paths_ground", "trusted_paths_ground")],
     "assumptions": ["tree_hash_cached contract (proved in unit tree_hash)", "clvmr Allocator accessor contracts"],
     "not_covered": [
-        "additions_and_removals in general (CLVM execution of the generator and puzzles)",
-        "get_coinspends_for_trusted_block(+with_conditions): recovered coin spends rebuild a generator with the same conditions",
-        "SpendBundle::additions",
+        "additions_and_removals, get_coinspends_for_trusted_block(+with_conditions) and SpendBundle::additions for all generators (they execute CLVM programs and use generic clvm-traits decoders): decided on 17 fixed generators covering every memo / hint / trailing-argument shape, where each is compared with full validation (additions with hints, removals, recovered coin spends re-validated as a bundle, SpendBundle::additions)",
     ],
 }
 
